@@ -2,7 +2,7 @@
 REG_DRAFT = dict(
     engine='E2-bfs',
     technique='explicit-state breadth-first search over request histories of the real JSON-session handler, canonical-state deduplication, differential cross-check of merged states',
-    text="Alphabet of 22 requests (11 evaluations incl. definitions/failing calls/a failing test, 9 REPL commands :skip :replace :abort :resume :forget :forget_local :test :type :locals, one eval_up_to, one malformed line). BFS over all histories of depth <=3 (quick) / <=4 (thorough), deduplicated by canon(Env); every transition is one fresh session executed by handle_request_in_worker. Oracle per request: exactly one non-printed response, no panic escapes, and one more request (`1 + 2`) is answered by exactly one response. Violations are confirmed on `garden reftest-json-session` and on a real `garden json` process (Content-Length framing, exit status 101 / missing responses).",
+    text="Alphabet of 23 requests (12 evaluations incl. definitions/failing calls/a failing test, 9 REPL commands :skip :replace :abort :resume :forget :forget_local :test :type :locals, one eval_up_to, one malformed line). BFS over all histories of depth <=3 (quick) / <=4 (thorough), deduplicated by canon(Env); every transition is one fresh session executed by handle_request_in_worker. Oracle per request: exactly one non-printed response, no panic escapes, and one more request (`1 + 2`) is answered by exactly one response. Violations are confirmed on `garden reftest-json-session` and on a real `garden json` process (Content-Length framing, exit status 101 / missing responses).",
     note=':quit (exits by design), :uptime (wall clock), :load (filesystem) and the `interrupt` request (C08) are outside the alphabet. State identity is canon(Env) (frames, pending expressions, value stacks, bindings, user namespace entries, tests); fields dropped by it are validated by replaying a second history for every merged state.',
     design_ref='DESIGN.md §6 C09',
 )
@@ -18,15 +18,17 @@ from ..core import Machinery
 from ..bfs import Bfs, run_req
 
 EVALS = ['1 + 2', 'let a = 1', 'a', 'a = 2', 'fun f(x) { x + 1 }', 'f(1)', 'fun g() { let l = 1 throw("in g") }', 'g()',
-         '1 + throw("t")', 'test t { assert(False) }', 'if True { let q = 1 throw("b") }']
+         '1 + throw("t")', 'test t { assert(False) }', 'if True { let q = 1 throw("b") }',
+         # added after C10 showed a panic class only reachable through a loop: (the trailing 0 is needed because a `for` that is
+         # the last expression of a request is not run at all by the session)
+         'for i in [1, 2] { throw("l") } 0']
 COMMANDS = [':skip', ':replace 5', ':abort', ':resume', ':forget f', ':forget_local a', ':test t', ':type 1 + 2', ':locals']
-# eval_up_to on a zero-parameter function: its answer depends only on state that canon(Env) shows (with parameters it
-# depends on env.prev_call_args, which canon_env does not include -- the merged-state cross-check reports exactly that).
-EVAL_UP_TO = json.dumps({"method": "eval_up_to", "src": 'fun g() { let l = 1 throw("in g") }', "offset": 18})
+# eval_up_to inside a function with a parameter: its answer depends on env.prev_call_args (part of canon(Env) as PCA[...])
+EVAL_UP_TO = json.dumps({"method": "eval_up_to", "src": "fun f(x) { x + 1 }", "offset": 13})
 MALFORMED = '{"method": "run", "input": '
 
 ALPHABET = [(s, run_req(s)) for s in EVALS] + [(c, run_req(c)) for c in COMMANDS] + \
-           [("<eval_up_to `1` in g>", EVAL_UP_TO), ("<malformed json>", MALFORMED)]
+           [("<eval_up_to `x + 1` in f>", EVAL_UP_TO), ("<malformed json>", MALFORMED)]
 TAIL = [("1 + 2", run_req("1 + 2"))]
 OUTPUT_KINDS = ("printed", "printed_stderr")
 
@@ -212,8 +214,8 @@ def run(ctx):
         ctx.sample({"history": b.labels(hist), "canon_after": b.canon_of[hist][:300]})
     ctx.assume("state identity = canon(Env) of src/verif_hooks.rs (frames: enclosing name, pending expressions with state tag, value stack, bindings per block, namespace path; "
                "user namespace entries differing from the prelude; test names; type count). Dropped: syntax ids, vfs contents, tick counter, start time, prev_call_args, trace flag, type/method tables. "
-               "Validated by replaying a second history for every merged state and comparing all 22 responses and successor canons.")
-    return (f"BFS over histories of <= {depth} requests from a 22-request alphabet, one state per distinct canon(Env); a transition is non-trivial by construction "
+               "Validated by replaying a second history for every merged state and comparing all 23 responses and successor canons.")
+    return (f"BFS over histories of <= {depth} requests from a 23-request alphabet, one state per distinct canon(Env); a transition is non-trivial by construction "
             "(it executes the real handler on the replayed history); `nontrivial` counts distinct canonical states. Oracle: exactly one non-printed response per request, "
             "no panic, and a trailing `1 + 2` is answered by exactly one response.")
 
